@@ -41,7 +41,7 @@ CFG = {
     "prop_file": "Properties/C17.v",
     "run_modules": ["Verif.C17.Run"],
     "coq_dirs": ["C17"],
-    "n": {"quick": 2400, "thorough": 150000},
+    "n": {"quick": 2400, "thorough": 60000},
     "shard": 150,
     "shrink": False,
     "max_report": 24,
@@ -94,7 +94,7 @@ CFG = {
                  "on the same buffer, where the order of the touches differs), int_conv_eq (goja's integer conversions are modular for every float), "
                  "raw_roundtrip (RawBytesToNumeric o NumericToRawBytes = ToType for all 11 kinds, both byte orders; floats through the "
                  "proved to_bits/of_bits round trip on SpecFloat), clamp_spec (ToUint8Clamp in 0..255, nearest, ties to even). The model "
-                 "is tied to /repo on every run by 2400 (quick) / 150000 (thorough) generated histories executed on buffers living in "
+                 "is tied to /repo on every run by 2400 (quick) / 60000 (thorough) generated histories executed on buffers living in "
                  "canary-guarded Go slabs and compared with S evaluated by vm_compute; the touched ranges of the model's I reading are "
                  "checked on every one of those histories as part of the verdict."),
         "note": ("trusted: Coq kernel + vm_compute; the hand transcription in coq/C17/Model.v; SpecFloat binary_normalize as the binary32 "
